@@ -352,6 +352,24 @@ theorem C04_source_bump (next : Nat) :
     Generated.bumpSkel.run next = some (next, next + 1) ∧ Generated.bumpSkel.seqCst = true := by
   constructor <;> rfl
 
+/-- **C04, source agreement (slot lookup).** `find_call_pattern_for_call_order` as read from the current source —
+    its iteration (from `translate_scan.py`) applied to its ownership test (from `translate_counter.py`) — is the
+    model's `findForOrder`: the first pattern in declaration order owning the slot. -/
+theorem C04_source_find (ps : List (Pattern α ρ)) (idx : Nat) :
+    Generated.findSkel.run (ps.map fun p => Generated.ownsSrc p.lo p.hi idx) = some (findForOrder ps idx) := by
+  have hc : (Generated.findSkel.overCallPatterns ∧ Generated.findSkel.ownIndex ∧
+      (Generated.findSkel.adaptors = [.iter, .enumerate, .find, .map] ∨
+       Generated.findSkel.adaptors = [.iter, .enumerate, .forReturn] ∨
+       Generated.findSkel.adaptors = [.iter, .position, .index])) := by decide
+  unfold FindSkel.run findForOrder
+  rw [if_pos hc]
+  congr 1
+  induction ps with
+  | nil => rfl
+  | cons p ps ih =>
+    simp only [C04_source_slot_test, Pattern.owns] at ih ⊢
+    simp only [List.map_cons, List.findIdx?_cons, id, ih]
+
 /-- how an outcome of the source skeleton reads in the model -/
 def agreesO (m : MethodInfo) (fm : FnMocker α ρ) (s' : Shared α ρ) : OOut → EvalOutcome ρ → Prop
   | .errCallOrder idx, out => out = .err (.callOrderNotMatched m idx (s'.findOrderedExpected idx))
